@@ -304,7 +304,7 @@ pub fn run_case(case: &Case, prefix: Vec<u32>, profile: ChoiceProfile) -> Run {
     let c_port = c.conn.local_addr().map(|a| a.port());
     // ---- what each side received, protocol-independent: (fields, trailers, body)
     type Seen = (Vec<(String, String)>, Vec<(String, String)>, Vec<u8>);
-    let mut h2_rules = |who: &str, blocks: &[Vec<(String, String)>], request: bool, flag: &mut dyn FnMut(String, String)| {
+    let h2_rules = |who: &str, blocks: &[Vec<(String, String)>], request: bool, flag: &mut dyn FnMut(String, String)| {
         // RFC 9113 section 8.2 / 8.3: what sozu writes on an HTTP/2 connection
         for (bi, block) in blocks.iter().enumerate() {
             let mut regular_seen = false;
